@@ -164,7 +164,29 @@ run_s2(void *arg)
 typedef struct s3arg {
 	int arrive_at; // ms after start; -1 never
 	int do_cancel;
+	int proto; // index into S3P: which receive path
 } s3arg;
+// receive paths: every protocol's socket receive (cooked: own queues; raw: the core msgq)
+static const struct {
+	const char *name;
+	int (*open_rx)(nng_socket *);
+	int (*open_tx)(nng_socket *);
+	int lossy; // best-effort delivery: the message may legitimately be dropped
+} S3P[] = {
+	{ "pair0", nng_pair0_open, nng_pair0_open, 0 },
+	{ "pull", nng_pull0_open, nng_push0_open, 0 },
+	{ "pair1", nng_pair1_open, nng_pair1_open, 0 },
+	{ "sub", nng_sub0_open, nng_pub0_open, 1 },
+	{ "bus", nng_bus0_open, nng_bus0_open, 1 },
+	{ "rep", nng_rep0_open, nng_req0_open, 0 },
+	{ "respondent", nng_respondent0_open, nng_surveyor0_open, 1 },
+	{ "xsub", nng_sub0_open_raw, nng_pub0_open, 1 },
+	{ "xrep", nng_rep0_open_raw, nng_req0_open, 0 },
+	{ "xrespondent", nng_respondent0_open_raw, nng_surveyor0_open, 1 },
+	{ "xpair1", nng_pair1_open_raw, nng_pair1_open, 0 },
+	{ "xbus", nng_bus0_open_raw, nng_bus0_open, 1 },
+};
+#define NS3P ((int) (sizeof(S3P) / sizeof(S3P[0])))
 static op         S3;
 static nng_socket s3a, s3b;
 static void *
@@ -190,8 +212,10 @@ run_s3(void *arg)
 	s3arg *x = arg;
 	vh_init(0);
 	memset(&S3, 0, sizeof(S3));
-	VH_OK(nng_pair0_open(&s3a));
-	VH_OK(nng_pair0_open(&s3b));
+	VH_OK(S3P[x->proto].open_rx(&s3a));
+	VH_OK(S3P[x->proto].open_tx(&s3b));
+	if (!strcmp(S3P[x->proto].name, "sub"))
+		VH_OK(nng_sub0_socket_subscribe(s3a, "", 0));
 	VH_OK(nng_listen(s3a, "inproc://s3", NULL, 0));
 	VH_OK(nng_dial(s3b, "inproc://s3", NULL, 0));
 	vs_settle();
@@ -225,7 +249,7 @@ run_s3(void *arg)
 		m = nng_aio_get_msg(S3.aio);
 		if (m == NULL || nng_msg_len(m) != 1)
 			vs_fail("C02:result-without-effect",
-			    "recv result 0 but no message");
+			    "%s recv result 0 but no message", S3P[x->proto].name);
 		nng_msg_free(m);
 		got++;
 	}
@@ -234,11 +258,11 @@ run_s3(void *arg)
 		got++;
 	}
 	int sent = ((intptr_t) srv == 0) ? 1 : 0;
-	if (got != sent)
+	if (got > sent || (got != sent && !S3P[x->proto].lossy))
 		vs_fail("C02:message-conservation",
-		    "sent %d message(s), receive result %d, total receivable %d",
-		    sent, S3.result, got);
-	vs_outcome("res=%d sent=%d", S3.result, sent);
+		    "%s: sent %d message(s), receive result %d, total receivable %d",
+		    S3P[x->proto].name, sent, S3.result, got);
+	vs_outcome("res=%d sent=%d got=%d", S3.result, sent, got);
 	nng_aio_free(S3.aio);
 	nng_socket_close(s3a);
 	nng_socket_close(s3b);
@@ -671,6 +695,172 @@ run_s8(void *arg)
 	vh_fini();
 }
 
+// ---- S10: user-written provider: timeout || nng_aio_free || unrelated timer ----------------
+// the provider's cancel function completes the operation and then keeps using the aio for a
+// moment (cleanup); nng_aio_free called after the completion callback must not return - and the
+// aio must not be released - before the timeout machinery has let go of it, whatever else wakes
+// the expire queue meanwhile (another operation with an earlier deadline).
+static op              S10, S10b;
+static int             s10_in_cancel, s10_freed;
+static pthread_mutex_t s10_mx = PTHREAD_MUTEX_INITIALIZER;
+static void
+s10_cancel(nng_aio *aio, void *arg, nng_err rv)
+{
+	(void) arg;
+	s10_in_cancel = 1;
+	nng_aio_finish(aio, rv);
+	// cleanup that still refers to the aio (scheduling points inside)
+	pthread_mutex_lock(&s10_mx);
+	pthread_mutex_unlock(&s10_mx);
+	pthread_mutex_lock(&s10_mx);
+	pthread_mutex_unlock(&s10_mx);
+	if (s10_freed)
+		vs_fail("C02:free-returned-during-cancel",
+		    "nng_aio_free returned while the timeout's cancel callback for that "
+		    "aio was still running");
+	(void) nng_aio_get_input(aio, 0);
+	s10_in_cancel = 0;
+}
+static void *
+s10_freer(void *a)
+{
+	(void) a;
+	nng_aio_free(S10.aio);
+	s10_freed = 1;
+	return NULL;
+}
+static void *
+s10_other(void *a)
+{
+	(void) a;
+	S10b.timeout   = 3;
+	S10b.t_start   = vs_now();
+	S10b.submitted = 1;
+	nng_sleep_aio(3, S10b.aio);
+	return NULL;
+}
+static void
+run_s10(void *arg)
+{
+	(void) arg;
+	vh_init(0);
+	memset(&S10, 0, sizeof(S10));
+	memset(&S10b, 0, sizeof(S10b));
+	s10_in_cancel = s10_freed = 0;
+	VH_OK(nng_aio_alloc(&S10.aio, op_cb, &S10));
+	VH_OK(nng_aio_alloc(&S10b.aio, op_cb, &S10b));
+	nng_aio_set_timeout(S10.aio, 5);
+	S10.timeout   = 5;
+	S10.t_start   = vs_now();
+	S10.submitted = 1;
+	vs_settle();
+	pthread_t tf, to;
+	vs_window(1);
+	nng_aio_reset(S10.aio);
+	if (!nng_aio_start(S10.aio, s10_cancel, NULL))
+		vs_fail("harness:s10", "nng_aio_start refused");
+	// wait for the completion callback (timeout), then free || unrelated timer
+	while (S10.ncb == 0)
+		vs_sleep(0);
+	pthread_create(&tf, NULL, s10_freer, NULL);
+	pthread_create(&to, NULL, s10_other, NULL);
+	pthread_join(tf, NULL);
+	pthread_join(to, NULL);
+	vs_window(0);
+	vs_settle();
+	vs_sleep(20);
+	if (S10.ncb != 1 || S10.result != NNG_ETIMEDOUT)
+		vs_fail("C02:callback-count", "provider op: %d callbacks, result %d", S10.ncb,
+		    S10.result);
+	if (S10b.ncb != 1)
+		vs_fail("C02:callback-count", "unrelated sleep: %d callbacks", S10b.ncb);
+	vs_outcome("cb=%d/%d", S10.ncb, S10b.ncb);
+	nng_aio_free(S10b.aio);
+	vh_fini();
+}
+
+// ---- S11: two operations expire in one batch, one of them completes and is restarted ------
+// A and B have the same deadline.  While the expire thread is busy cancelling A, B completes on
+// its own (its message arrives at the deadline) and its callback starts a new timed receive on
+// the same aio: that new operation must get its full timeout.
+static op         S11a, S11b;
+static nng_socket s11a, s11b, s11c;
+static void
+s11b_cb(void *arg)
+{
+	op *o = arg;
+	o->ncb++;
+	o->result = nng_aio_result(o->aio);
+	o->t_cb   = vs_now();
+	if (o->ncb > o->submitted)
+		vs_fail("C02:double-callback", "callback #%d for %d submissions", o->ncb,
+		    o->submitted);
+	if (o->result == NNG_ETIMEDOUT && o->t_cb < o->t_start + o->timeout)
+		vs_fail("C02:early-timeout",
+		    "receive #%d (timeout %d ms, started at +%lld) reported NNG_ETIMEDOUT "
+		    "after %lld ms",
+		    o->submitted, o->timeout, (long long) o->t_start,
+		    (long long) (o->t_cb - o->t_start));
+	if (o->result == 0) {
+		nng_msg_free(nng_aio_get_msg(o->aio));
+		if (o->submitted == 1) {
+			o->submitted = 2;
+			o->t_start   = vs_now();
+			nng_socket_recv(s11b, o->aio);
+		}
+	}
+}
+static void *
+s11_sender(void *a)
+{
+	int at = (int) (intptr_t) a;
+	vs_sleep(at);
+	vh_send_nb(s11c, "m", 1);
+	return NULL;
+}
+static void
+run_s11(void *arg)
+{
+	int at      = ((int) (intptr_t) arg) & 0xff;
+	vh_init(0);
+	memset(&S11a, 0, sizeof(S11a));
+	memset(&S11b, 0, sizeof(S11b));
+	VH_OK(nng_pair0_open(&s11a));
+	VH_OK(nng_pair0_open(&s11b));
+	VH_OK(nng_pair0_open(&s11c));
+	VH_OK(nng_listen(s11b, "inproc://s11", NULL, 0));
+	VH_OK(nng_dial(s11c, "inproc://s11", NULL, 0));
+	vs_settle();
+	VH_OK(nng_aio_alloc(&S11a.aio, op_cb, &S11a));
+	VH_OK(nng_aio_alloc(&S11b.aio, s11b_cb, &S11b));
+	nng_aio_set_timeout(S11a.aio, 10);
+	nng_aio_set_timeout(S11b.aio, 10);
+	S11a.timeout = S11b.timeout = 10;
+	S11a.t_start = S11b.t_start = vs_now();
+	S11a.submitted = S11b.submitted = 1;
+	pthread_t ts;
+	vs_window(1);
+	nng_socket_recv(s11a, S11a.aio);
+	nng_socket_recv(s11b, S11b.aio);
+	pthread_create(&ts, NULL, s11_sender, (void *) (intptr_t) at);
+	pthread_join(ts, NULL);
+	nng_aio_wait(S11a.aio);
+	vs_window(0);
+	vs_settle();
+	vs_sleep(40);
+	vs_settle();
+	if (S11a.ncb != 1 || S11b.ncb != S11b.submitted)
+		vs_fail("C02:callback-count", "A: %d callbacks; B: %d callbacks for %d submissions",
+		    S11a.ncb, S11b.ncb, S11b.submitted);
+	vs_outcome("A=%d B=%d/%d last=%d", S11a.result, S11b.ncb, S11b.submitted, S11b.result);
+	nng_aio_free(S11a.aio);
+	nng_aio_free(S11b.aio);
+	nng_socket_close(s11a);
+	nng_socket_close(s11b);
+	nng_socket_close(s11c);
+	vh_fini();
+}
+
 static void
 explore(const char *name, void (*fn)(void *), void *arg, int p, int t, int sw,
     int total)
@@ -702,11 +892,27 @@ main(int argc, char **argv)
 	explore("S1-sleep-cancel", run_s1, NULL, p, t, sw, tot);
 	explore("S2-sleep-stop", run_s2, (void *) 0, p, t, sw, tot);
 	explore("S2r-resubmit-stop", run_s2, (void *) 2, p, t, sw, tot);
-	static s3arg s3[] = { { 0, 0 }, { 0, 1 }, { 9, 1 }, { 10, 0 }, { 11, 0 } };
+	static s3arg s3[] = { { 0, 0, 0 }, { 0, 1, 0 }, { 9, 1, 0 }, { 10, 0, 0 },
+		{ 11, 0, 0 } };
 	static const char *s3n[] = { "S3-recv-msg", "S3-recv-msg-cancel",
 		"S3-recv-msg@9-cancel", "S3-recv-msg@10", "S3-recv-msg@11" };
 	for (int i = 0; i < 5; i++)
 		explore(s3n[i], run_s3, &s3[i], p, t, sw, tot);
+	// the same races on every other protocol's receive path (quick: message vs
+	// cancel and message vs expiry; thorough: all five timings)
+	static s3arg s3x[5 * 16];
+	int          n3x = 0;
+	for (int pr = 1; pr < NS3P; pr++)
+		for (int i = 0; i < 5; i++) {
+			if (!T && i != 1 && i != 3)
+				continue;
+			s3x[n3x]       = s3[i];
+			s3x[n3x].proto = pr;
+			char nm[64];
+			snprintf(nm, sizeof(nm), "%s-%s", s3n[i], S3P[pr].name);
+			explore(strdup(nm), run_s3, &s3x[n3x], p, t, sw, tot);
+			n3x++;
+		}
 	static s6arg s6[] = { { 0 }, { 1 }, { 2 }, { 3 } };
 	static const char *s6n[] = { "S6-dial-fresh", "S6-dial-zero-timeout",
 		"S6-dial-stopped-aio", "S6-dial-cancel" };
@@ -716,6 +922,14 @@ main(int argc, char **argv)
 		"S9-close-rep", "S9-close-sub" };
 	for (int i = 0; i < 4; i++)
 		explore(s9n[i], run_s9, (void *) (intptr_t) i, p, t, sw, tot);
+	explore("S10-provider-timeout-free", run_s10, NULL, p, t, sw, tot);
+	// without preemptions (switches at blocking points and timers only): a restart while the
+	// expire thread is busy with another member of its batch
+	explore("S11-batch-expiry-restart@10", run_s11, (void *) (intptr_t) 10, 0, t, sw, tot);
+	explore("S11-batch-expiry-restart@11", run_s11, (void *) (intptr_t) 11, 0, t, sw, tot);
+	// with preemptions: a restart between the expire thread's decision and its cancel call
+	explore("S12-expiry-restart-preempt@10", run_s11, (void *) (intptr_t) (0x100 | 10), p, t, sw, tot);
+	explore("S12-expiry-restart-preempt@11", run_s11, (void *) (intptr_t) (0x100 | 11), p, t, sw, tot);
 	explore("S4-ctxrecv-reply", run_s4, (void *) 0, p, t, sw, tot);
 	explore("S4-ctxrecv-reply-cancel", run_s4, (void *) 1, p, t, sw, tot);
 	explore("S7-device-cancel", run_s7, NULL, 1, 1, 1, 1); // teardown has ~300 points: 1 deviation
